@@ -672,6 +672,7 @@ func (h *vhandler) closeNow(vc *vconn, c Conn) Action {
 		h.rec.emit("CloseReq", "c", sp.id, "how", "elclose")
 		err := c.EventLoop().Close(c)
 		h.rec.emit("ElCloseRet", "c", sp.id, "err", errClass(err))
+		h.staleWrites(vc, c)
 		return None
 	case "async", "asynccb":
 		a := h.newReq()
@@ -693,6 +694,46 @@ func (h *vhandler) closeNow(vc *vconn, c Conn) Action {
 		h.rec.emit("AIssued", "a", a, "err", errClass(err))
 	}
 	return None
+}
+
+// staleWrites: the callback goes on using a connection it has just closed through EventLoop.Close (the close is
+// synchronous: the descriptor is gone). Foreign sockets are opened first so that the number is, if possible, in use
+// again by something that is not the framework's; Write and Writev must then fail without a system call on that
+// number, and nothing may arrive on the foreign socket.
+func (h *vhandler) staleWrites(vc *vconn, c Conn) {
+	sp := vc.spec
+	fd := -1
+	if v, ok := h.fdOf.Load(sp.id); ok {
+		fd = v.(int)
+	}
+	var pairs [][2]int
+	other := -1
+	for i := 0; i < 16 && other < 0; i++ {
+		p, err := unix.Socketpair(unix.AF_UNIX, unix.SOCK_STREAM|unix.SOCK_NONBLOCK|unix.SOCK_CLOEXEC, 0)
+		if err != nil {
+			break
+		}
+		pairs = append(pairs, p)
+		if p[0] == fd {
+			other = p[1]
+		} else if p[1] == fd {
+			other = p[0]
+		}
+	}
+	n1, e1 := c.Write([]byte("stale-write"))
+	n2, e2 := c.Writev([][]byte{[]byte("stale-"), []byte("writev")})
+	leaked := 0
+	if other >= 0 {
+		buf := make([]byte, 64)
+		if n, _ := unix.Read(other, buf); n > 0 {
+			leaked = n
+		}
+	}
+	for _, p := range pairs {
+		_ = unix.Close(p[0])
+		_ = unix.Close(p[1])
+	}
+	h.rec.emit("StaleWrite", "c", sp.id, "n", n1, "err", errClass(e1), "nv", n2, "errv", errClass(e2), "reused", other >= 0, "leaked", leaked)
 }
 
 func (h *vhandler) readOps(vc *vconn, c Conn) {
@@ -1028,6 +1069,13 @@ func (h *vhandler) OnClose(c Conn, err error) Action {
 		// a farewell written from OnClose (best effort; it may well fail on a reset connection)
 		n, werr := c.Write([]byte("bye"))
 		h.rec.emit("CloseWrite", "c", vc.spec.id, "n", n, "err", errClass(werr))
+	}
+	if vc.rng.Intn(4) == 0 {
+		// a close of the connection requested from inside its own OnClose (EventLoop.Close is synchronous on the
+		// loop's goroutine): the connection is being closed already, the request must be a no-op -- no second
+		// OnClose, no second removal from the registry (Engine.CountConnections is read at quiescence)
+		cerr := c.EventLoop().Close(c)
+		h.rec.emit("CloseReenter", "c", vc.spec.id, "err", errClass(cerr))
 	}
 	if vc.spec.stopOn == "OnClose" || allShutdown {
 		h.rec.emit("StopReq", "src", "OnClose", "g", g)
